@@ -567,6 +567,12 @@ func validateConstExpression(globals []GlobalType, numFuncs uint32, expr *Consta
 		if uint32(len(globals)) <= id {
 			return fmt.Errorf("global index out of range")
 		}
+		// A constant expression can only refer to an immutable (imported) global: the value of a
+		// mutable one may have changed by the time the expression is evaluated at instantiation.
+		// See https://www.w3.org/TR/2022/WD-wasm-core-2-20220419/valid/instructions.html#constant-expressions
+		if globals[id].Mutable {
+			return fmt.Errorf("constant expression required: global.get %d refers to a mutable global", id)
+		}
 		actualType = globals[id].ValType
 	case OpcodeRefNull:
 		if len(expr.Data) == 0 {
